@@ -44,6 +44,34 @@ def check(ctx):
     base58(ctx, prog, ev)
     chains(ctx, prog)
     mnemonic(ctx, prog)
+    memo(ctx, prog)
+
+
+def memo(ctx, prog):
+    """key bytes, public keys and addresses of BIP32 keys are memoised by `cachedproperty`: the memo must live ON the key object (it then dies with it).
+    A memo kept anywhere else and keyed by id(obj) / hash survives the object and is inherited by the next key allocated at that address."""
+    g = ctx.fa("lbry.wallet.util.cachedproperty.__get__")
+    obj = g.fi.params()[1]
+    sa = [c for c in g.calls(name="setattr")]
+    ok = len(sa) == 1 and len(sa[0].args) == 3 and dotted(sa[0].args[0]) == obj and unparse(sa[0].args[1]) == "self.f.__name__" and \
+        g.expanded_text(sa[0].args[2], keep=(obj,)) == f"self.f({obj})"
+    ctx.ob("C06-D6/MEMO", ok, g.site(), "cachedproperty stores f(obj) as an attribute of obj itself, under the property's name", func=g.fi.qualname, key="C06-D6/MEMO|setattr")
+    for c in sa:
+        R.exact_gate(ctx, "C06-D6/MEMO", g, c, "", "…unconditionally", key="C06-D6/MEMO|always")
+    r = [x for x in g.stmts(ast.Return)]
+    ok = bool(r) and all(g.expanded_text(x.value, keep=(obj,)) == f"self.f({obj})" for x in r)
+    ctx.ob("C06-D6/MEMO", ok, g.site(), "…and returns that value", func=g.fi.qualname, key="C06-D6/MEMO|return")
+    w = ctx.eng.self_writes(prog.cls("lbry.wallet.util.cachedproperty"), "__get__") if hasattr(ctx.eng, "self_writes") else set()
+    ctx.ob("C06-D6/MEMO", not w, g.site(), "the descriptor itself keeps no per-object state (__get__ writes nothing on self)", detail=str(sorted(w)) if w else "", func=g.fi.qualname,
+           key="C06-D6/MEMO|stateless")
+    n = 0
+    for q, f in sorted(prog.functions.items()):
+        if f.module.name == "lbry.wallet.bip32" and "cachedproperty" in f.decorators():
+            n += 1
+            fa = ctx.fa(q)
+            args_ok = fa.fi.params() == ["self"]
+            ctx.ob("C06-D6/MEMO", args_ok, fa.site(), f"{f.cls.name}.{f.name} is a function of the key object alone", func=q, key=f"C06-D6/MEMO|{q}|arity")
+    ctx.floor("C06-D6/MEMO", "memoised key properties", n, 4)
 
 
 def derivation(ctx, prog, ev):
